@@ -11,8 +11,8 @@ spec = {"argv": ["-r", name, "-s", sess, ...],      command line of pcfg_guesser
         "quit_after_pops": k | null,                 should_exit is set while the k-th pre-terminal is being generated
         "cap": max guesses (the run is abandoned beyond it)}
 
-Prints one line  @@RESULT@@<json>  with {"out": [guesses], "pops": [[pt, prob], ...], "error": str|null,
-"stray_stdout": text written to stdout by anything but print_guess}.
+Prints one line  @@RESULT@@<json>  with {"out": [guesses], "pops": [[pt, prob], ...], "pop_at": [number of guesses written
+before the i-th pop], "error": str|null, "stray_stdout": text written to stdout by anything but print_guess}.
 The save file is written where main() puts it (beside the copy's pcfg_guesser.py), rulesets are read from
 <code_dir>/Rules - which is why this runs on a copy of the tree and never on /repo itself."""
 import io
@@ -33,7 +33,7 @@ def main():
         import lib_guesser.cracking_session as cs
         from lib_guesser.pcfg_grammar import PcfgGrammar
         from lib_guesser.priority_queue import PcfgQueue
-    res = {"out": [], "pops": [], "error": None}
+    res = {"out": [], "pops": [], "pop_at": [], "error": None}
     qg, qp, cap = spec.get("quit_after_guesses"), spec.get("quit_after_pops"), spec.get("cap", 200000)
     grammars = []
 
@@ -54,6 +54,7 @@ def main():
             it = PcfgQueue.next(self)
             if it is not None:
                 res["pops"].append([[list(x) for x in it["pt"]], it["prob"]])
+                res["pop_at"].append(len(res["out"]))
                 if qp is not None and len(res["pops"]) == qp:
                     self.pcfg.should_exit = True
             return it
